@@ -11,8 +11,8 @@
    the full statement is proved for the repaired form and refuted (`_refuted`, concrete witness) for
    the current form; `_partial` is what holds for both. *)
 From Coq Require Import String ZArith List Bool.
-From DV Require Import Model.PyPrims Gen.ReaderLoops Model.Tokenizer Model.Newick Model.C20Model Model.C20Nexus
-                       Proofs.C20Proofs Proofs.C20NexusProofs Proofs.C20Tok Proofs.C20Newick Proofs.C20NexusTotal.
+From DV Require Import Model.PyPrims Gen.ReaderLoops Model.Tokenizer Model.Newick Model.C20Model Model.C20Nexus2
+                       Proofs.C20Proofs Proofs.C20Tok Proofs.C20Newick Proofs.C20Nexus2Proofs Proofs.C20Nexus2Total.
 Import ListNotations.
 Close Scope string_scope.
 Open Scope list_scope.
@@ -23,31 +23,26 @@ Open Scope Z_scope.
 (* ========================================================================================== *)
 
 (* Every `while` (and `for .. in itertools.count()`) of tokenizer.py, nexusprocessing.py,
-   newickreader.py, nexusreader.py, nexusyielder.py in the CURRENT source satisfies the progress rule
-   `loop_ok` (R0-R3 in C20Model.v), or is on the explicit allow-list (4 loops, each justified in
-   C20Model.v and pinned to the loop's AST digest), or is one of the recorded defect sites.
-   Changing `require_next_token` to `next_token` in a statement loop, or adding an unguarded loop,
-   makes this false. *)
+   newickreader.py, nexusreader.py, nexusyielder.py, newickyielder.py in the CURRENT source satisfies the
+   progress rule `loop_ok` (R0-R3 in C20Model.v), or is on the explicit allow-list (each entry justified
+   in C20Model.v and pinned to the loop's AST digest).  Strict: a loop that fails the rule and is not
+   allow-listed makes this false - changing `require_next_token` to `next_token` in a statement loop,
+   or adding an unguarded loop, breaks the proof. *)
 Theorem loop_progress :
-  forallb (fun l => loop_ok l || loop_in allow_list l || loop_in known_defect_loops l) reader_loops = true.
+  forallb (fun l => loop_ok l || loop_in allow_list l) reader_loops = true.
 Proof. exact loop_progress_l. Qed.
 Print Assumptions loop_progress.
 
 Theorem loop_progress_lifted : forall l, In l reader_loops ->
-  loop_ok l = true \/ loop_in allow_list l = true \/ loop_in known_defect_loops l = true.
+  loop_ok l = true \/ loop_in allow_list l = true.
 Proof. exact loop_progress_lifted_l. Qed.
 Print Assumptions loop_progress_lifted.
 
-(* The loops that are neither discharged mechanically nor allow-listed are exactly the recorded
-   defect sites still present in the source (both sides are [] once they are repaired): no loop is
-   passed silently, and no allow-list entry shadows a loop the rule discharges anyway. *)
-Theorem loop_defects_exact :
-  filter (fun l => negb (loop_ok l || loop_in allow_list l)) reader_loops
-  = filter (loop_in known_defect_loops) reader_loops
-  /\ forallb (fun l => negb (loop_in allow_list l && loop_ok l)) reader_loops = true
-  /\ excluded_loops = [].
-Proof. exact (conj loop_defects_exact_l (conj allow_list_needed_l excluded_loops_none_l)). Qed.
-Print Assumptions loop_defects_exact.
+(* no allow-list entry shadows a loop the rule discharges anyway, and no loop is excluded *)
+Theorem allow_list_minimal :
+  forallb (fun l => negb (loop_in allow_list l && loop_ok l)) reader_loops = true /\ excluded_loops = [].
+Proof. exact (conj allow_list_needed_l excluded_loops_none_l). Qed.
+Print Assumptions allow_list_minimal.
 
 (* the only self-recursive functions of the reader modules are the two justified in C20Model.v *)
 Theorem recursion_sites_known : forallb recursion_known reader_recursions = true.
@@ -111,106 +106,118 @@ Proof. exact fasta_reader_total_l. Qed.
 Print Assumptions fasta_reader_total.
 
 (* ========================================================================================== *)
-(* 4. NEXUS control skeleton                                                                   *)
+(* 4. NEXUS control skeleton (Model/C20Nexus2.v: character level, interleaved and continuous      *)
+(*    matrices, multistate groups, SYMBOLS / GAP / MISSING / MATCHCHAR, all data types)          *)
 (* ========================================================================================== *)
 
-(* nexus_skeleton_total - "for every text the skeleton ends in Ok or ParseErr within the budget
-   2*|text| + 16" - is REFUTED for the current form of the reader: *)
+(* For EVERY character list, every choice of the runtime functions and EVERY form of the recorded defect
+   sites (so: for the current reader) the skeleton never runs out of its budget 2*|text| + 16: the reader
+   does not hang.  The guards and fetch primitives of its 23 loops are those of the GENERATED records. *)
+Theorem nexus_never_hangs :
+  forall (fx : nfix) (upper lower : Tokenizer.str -> Tokenizer.str) (dval : Z -> option Z)
+         (sym_ok : Z -> Z -> bool) (is_float : Tokenizer.str -> bool) (text : Tokenizer.str),
+  nexus_read fx upper lower dval sym_ok is_float text <> RFuel.
+Proof. exact nexus_never_hangs_l. Qed.
+Print Assumptions nexus_never_hangs.
 
-(* it hangs on two complete documents *)
-Theorem nexus_skeleton_total_refuted_hang :
-  cls (run nfix_none w_link) = Some Hang /\ cls (run nfix_none w_positions) = Some Hang.
-Proof. exact nexus_hang_witnesses_l. Qed.
-Print Assumptions nexus_skeleton_total_refuted_hang.
-
-(* the LINK loop genuinely diverges: with ANY budget, from any state, on any token other than
-   ";", TAXA, CHARACTERS *)
-Theorem nexus_link_loop_diverges :
-  forall (upper : str -> str) (fuel : nat) tok st lt lc,
-  tok_is tok ";" = false -> tok_is tok "TAXA" = false -> tok_is tok "CHARACTERS" = false ->
-  link_loop upper nfix_none fuel tok st lt lc = RFuel.
-Proof. exact link_loop_diverges. Qed.
-Print Assumptions nexus_link_loop_diverges.
-
-(* it raises AttributeError / TypeError / ValueError / a leaked internal exception *)
-Theorem nexus_skeleton_total_refuted_internal_errors :
-  cls (run nfix_none w_empty) = Some AttrErr
-  /\ cls (run nfix_none w_taxlabels_eof) = Some AttrErr
-  /\ cls (run nfix_none w_taxlabels_nodims) = Some TypeErr
-  /\ cls (run nfix_none w_tree_eof) = Some AttrErr
-  /\ cls (run nfix_none w_untitled) = Some AttrErr
-  /\ cls (run nfix_none w_blockterm) = Some OtherErr
-  /\ cls (run nfix_none w_datatype) = Some TypeErr
-  /\ cls (run nfix_none w_charsetdup) = Some ValueErr
-  /\ cls (run nfix_none w_step0) = Some ValueErr.
-Proof. exact nexus_internal_error_witnesses_l. Qed.
-Print Assumptions nexus_skeleton_total_refuted_internal_errors.
-
-(* and it returns a matrix with fewer rows than NTAX declares for a document cut inside MATRIX *)
-Theorem nexus_dims_consistent_refuted :
-  match run nfix_none w_truncmatrix with
-  | ROk st => match n_ntax st, n_mats st with
-              | Some ntax, [m] => (Z.of_nat (length (m_rows m)) <? ntax) = true
-              | _, _ => False
-              end
-  | _ => False
-  end.
-Proof. exact nexus_truncated_matrix_witness_l. Qed.
-Print Assumptions nexus_dims_consistent_refuted.
-
-(* On the repaired form the same documents are parse errors (or, for the two complete documents
-   `LINK FOO = x;` and TAXLABELS without DIMENSIONS, are read), and every prefix of a valid document
-   with TAXA, CHARACTERS, TREES+TRANSLATE and SETS blocks is read or is a parse error, which is false
-   on the current form (crash-point quantifier, one concrete document; the harness checks the same
-   for generated documents of every block structure). *)
-Theorem nexus_repaired_examples :
-  forallb (fun w => match cls (run nfix_all w) with Some ParseErr => true | _ => false end)
-          [w_positions; w_step0; w_empty; w_taxlabels_eof; w_tree_eof; w_untitled; w_blockterm;
-           w_truncmatrix; w_charsetdup] = true
-  /\ cls (run nfix_all w_link) = None
-  /\ cls (run nfix_all w_taxlabels_nodims) = None
-  /\ cls (run nfix_all w_valid) = None /\ cls (run nfix_none w_valid) = None.
-Proof. exact nexus_witnesses_repaired_l. Qed.
-Print Assumptions nexus_repaired_examples.
-
-Theorem prefix_closed_errors_example :
-  prefixes_ok nfix_all w_valid = true /\ prefixes_ok nfix_none w_valid = false.
-Proof. exact nexus_prefix_closed_example_l. Qed.
-Print Assumptions prefix_closed_errors_example.
-
-(* nexus_skeleton_total: on the REPAIRED form (every recorded defect site in its fixed form,
-   `nfix_all`), for EVERY character list and every choice of the runtime functions, the skeleton
-   ends within its budget 2*|text| + 16 in Ok or DataParseError (or leaves the modelled fragment,
-   RUnm: interleaved / continuous / non-DNA matrices, multistate groups, SYMBOLS, MATCHCHAR):
-   never out of budget (no hang), never AttributeError / TypeError / ValueError / IndexError / a
-   leaked internal exception.  The guards and fetch primitives of all 17 loops are the ones of the
-   GENERATED records, so the proof is re-checked against the current source on every run. *)
+(* nexus_skeleton_total: on the repaired form the skeleton ends in Ok or DataParseError, for every input:
+   no hang, no AttributeError / TypeError / ValueError / IndexError / leaked internal exception *)
 Theorem nexus_skeleton_total :
-  forall (upper lower : Tokenizer.str -> Tokenizer.str) (dval : Z -> option Z) (sym_ok : Z -> bool)
+  forall (upper lower : Tokenizer.str -> Tokenizer.str) (dval : Z -> option Z) (sym_ok : Z -> Z -> bool)
          (is_float : Tokenizer.str -> bool) (text : Tokenizer.str),
-  match nexus_read upper lower dval sym_ok is_float nfix_all text with
+  match nexus_read nfix_all upper lower dval sym_ok is_float text with
   | ROk _ => True
   | RErr e => e = ParseErr
   | RFuel => False
-  | RUnm => True
   end.
-Proof. exact nexus_skeleton_total_l. Qed.
+Proof. exact nexus_skeleton_total2_l. Qed.
 Print Assumptions nexus_skeleton_total.
 
-(* the same for any token stream and any budget above twice its weight + 8 *)
-Theorem nexus_skeleton_total_tokens :
-  forall (upper lower : Tokenizer.str -> Tokenizer.str) (dval : Z -> option Z) (sym_ok : Z -> bool)
-         (is_float : Tokenizer.str -> bool) (F : nat) (toks : list token * tend),
-  snd toks <> EndFuel -> (forall e, snd toks = EndErr e -> e = ParseErr) ->
-  (2 * wsum (fst toks) + 8 <= F)%nat ->
-  match parse_nexus_stream upper lower dval sym_ok is_float nfix_all F toks with
+(* on the current form the only other error classes are those of the recorded sites *)
+Theorem nexus_error_classes :
+  forall (fx : nfix) (upper lower : Tokenizer.str -> Tokenizer.str) (dval : Z -> option Z)
+         (sym_ok : Z -> Z -> bool) (is_float : Tokenizer.str -> bool) (text : Tokenizer.str),
+  match nexus_read fx upper lower dval sym_ok is_float text with
+  | ROk _ => True
+  | RErr e => e = ParseErr \/ (fx_cblock fx = false /\ e = OtherErr)
+              \/ (fx_alpha fx = false /\ (e = ValueErr \/ e = TypeErr))
+  | RFuel => False
+  end.
+Proof. exact nexus_error_classes_l. Qed.
+Print Assumptions nexus_error_classes.
+
+(* nexus_skeleton_total is REFUTED for the current form: a leaked internal exception (continuous
+   matrix), ValueError and TypeError (STANDARD alphabet built from SYMBOLS) *)
+Theorem nexus_skeleton_total_refuted :
+  cls (run nfix_none w_cblock) = Some OtherErr
+  /\ cls (run nfix_none w_alpha_dup) = Some ValueErr
+  /\ cls (run nfix_none w_alpha_empty) = Some TypeErr.
+Proof. exact nexus2_internal_error_witnesses_l. Qed.
+Print Assumptions nexus_skeleton_total_refuted.
+
+(* declared-versus-found dimensions, refuted: the current form returns an interleaved matrix with a row
+   shorter than NCHAR; and (both forms: the residual finding) a matrix with fewer rows than NTAX *)
+Theorem nexus_dims_consistent_refuted :
+  match run nfix_none w_ildims with
+  | ROk st => rows_short st 4 = true
+  | _ => False
+  end
+  /\ match run nfix_all w_rows_fewer with
+     | ROk st => match n_ntax st, n_mats st with
+                 | Some ntax, [m] => (Z.of_nat (length (m_rows m)) <? ntax) = true
+                 | _, _ => False
+                 end
+     | _ => False
+     end.
+Proof. exact nexus2_dims_witnesses_l. Qed.
+Print Assumptions nexus_dims_consistent_refuted.
+
+(* the same documents on the repaired form; valid documents (sequential with multistate groups, TREES with
+   TRANSLATE, SETS; interleaved followed by TREES; STANDARD with SYMBOLS) read on both forms *)
+Theorem nexus_repaired_examples :
+  forallb (fun w => match cls (run nfix_all w) with Some ParseErr => true | _ => false end)
+          [w_cblock; w_alpha_dup; w_alpha_empty; w_ildims] = true
+  /\ forallb (fun w => match cls (run nfix_all w), cls (run nfix_none w) with None, None => true | _, _ => false end)
+             [w_valid; w_valid_interleaved; w_valid_standard] = true.
+Proof. exact nexus2_repaired_witnesses_l. Qed.
+Print Assumptions nexus_repaired_examples.
+
+(* ========================================================================================== *)
+(* 4b. crash points: every prefix of every document                                             *)
+(* ========================================================================================== *)
+
+(* prefix_closed_errors: for EVERY document and EVERY truncation point the readers' answer on the prefix
+   is a valid (possibly shorter) result or DataParseError.  (Corollaries of the totality theorems, which
+   hold for arbitrary texts; that a prefix never yields MORE trees than the whole document is not proved.) *)
+Theorem prefix_closed_errors_newick :
+  forall (L : Type) (parse_len : Tokenizer.str -> option L) (lower : Tokenizer.str -> Tokenizer.str)
+         (o : ropts) (ns : list Tokenizer.str) (document : Tokenizer.str) (k : nat),
+  ro_terminating_semicolon_required o = true ->
+  match read_newick L parse_len lower o ns (firstn k document) with
+  | Ok _ => True
+  | Err e => e = ParseErr
+  | OutOfFuel => False
+  end.
+Proof. exact prefix_closed_newick_l. Qed.
+Print Assumptions prefix_closed_errors_newick.
+
+Theorem prefix_closed_errors_nexus :
+  forall (upper lower : Tokenizer.str -> Tokenizer.str) (dval : Z -> option Z) (sym_ok : Z -> Z -> bool)
+         (is_float : Tokenizer.str -> bool) (document : Tokenizer.str) (k : nat),
+  match nexus_read nfix_all upper lower dval sym_ok is_float (firstn k document) with
   | ROk _ => True
   | RErr e => e = ParseErr
   | RFuel => False
-  | RUnm => True
   end.
-Proof. exact parse_nexus_stream_tot. Qed.
-Print Assumptions nexus_skeleton_total_tokens.
+Proof. exact prefix_closed_nexus_l. Qed.
+Print Assumptions prefix_closed_errors_nexus.
+
+(* computed, per block structure: every prefix of concrete valid documents *)
+Theorem prefix_closed_errors_examples :
+  prefixes_ok nfix_all w_valid = true /\ prefixes_ok nfix_all w_valid_interleaved = true
+  /\ prefixes_ok nfix_all w_valid_standard = true.
+Proof. exact nexus2_prefix_closed_examples_l. Qed.
+Print Assumptions prefix_closed_errors_examples.
 
 (* ========================================================================================== *)
 (* 5. tokenizer and Newick reader (C02's models Model/Tokenizer.v, Model/Newick.v)             *)
